@@ -11,7 +11,9 @@ def check(ctx):
         "entry unconditionally, DropCollect removes it, span_collections/danglings grow only in the submit phase / "
         "amend_*, and start_collect announces exactly the fresh id it returns; R3 the drain closure removes a receiver only on Err(ChannelClosed), and try_recv reports closed "
         "only after is_abandoned() and a second pop, the registry is filtered in place under its lock, and a danglings map exists only inside ActiveCollector; R4 the StartCollect insert must be conditional on the id not being "
-        "finished already.")
+        "finished already; R5 parked signals are visible to the collector (known finding K2); R6 CommitCollect / DropCollect "
+        "go through force_send, which parks instead of dropping, and a parked command that meets a full ring on replay is put "
+        "back (a lost finish signal retains its trace's entry for ever).")
     ctx.not_decided = ("that retained state IS bounded after every history (the rules pin down who grows and who shrinks "
                        "each container and on which paths; counting entries over histories is a runtime quantity).")
     facts = ctx.facts("E")
@@ -28,3 +30,8 @@ def check(ctx):
     spsc.rule_try_recv(ctx, facts, "R3")
     collector.rule_insert_tolerates_late_start(ctx, c, "R4")
     spsc.rule_parked_visible_to_collector(ctx, facts, "R5")
+    # a finish / cancel signal that is lost leaves its trace's entry in active_collectors for good
+    from .. import spanrules
+    spanrules.rule_signals_forced(ctx, facts, "R6")
+    spsc.rule_force_send_keeps(ctx, facts, "R6")
+    spsc.rule_replay_keeps(ctx, facts, "R6")
